@@ -206,4 +206,6 @@ class CirculationPump(BranchWOInternalsComponent):
         cp_i1 = fluid.get_heat_capacity(tout)
 
         mass = branch_pit[f:t, MDOTINIT]
-        res_table['qext_w'].values[connected] = (mass * (cp_i1 * tout - cp_i * t_from))[connected]
+        # heat added by the pump: mass flow times mean heat capacity times temperature rise, the same
+        # form all other components use (cp(T2) * T2 - cp(T1) * T1 is not a difference of enthalpies)
+        res_table['qext_w'].values[connected] = (mass * (cp_i + cp_i1) / 2 * (tout - t_from))[connected]
